@@ -797,7 +797,7 @@ func c53AnchorInit(r *vkit.Run, c *c53Case) (c53Target, bool) {
 // ---- driver -----------------------------------------------------------------------------
 
 func c53(r *vkit.Run) {
-	r.SetRule("history = one key's deterministic script of target offsets (us) against one real prisonRule (threshold 0-8, checkPeriod 40-200 ms, stayPeriod 40-400 ms via the verif hook; 12 accessSignConf modes: header, cookie, query, clientip, host, path, url, urlregexp and combinations, keys of a rule differing in exactly one participating component, a per-request noise header/query that must not matter). Scripts come from a generator that follows the nominal automaton to exceed periods, probe jails (half of the probes in the last 15 ms before release), serve them, let periods run out, and place 1/10 of the steps +-2 ms around edges; otherwise >= 10 ms from edges. 'keys' cases run 3-6 keys of one rule in parallel goroutines (each key sequential); 'storm' cases fire 2-4 goroutines on ONE key and are judged by counts (exactly min(N,T) admitted when the burst certainly lies within one period; nothing admitted after a denial returned) followed by sequential probes; one 'anchor' case runs checkPeriod=stayPeriod=1 s through module Init + the HandleFoundProduct handler chain. Oracle: state-set interval reference (c53ref.go): period opened by the first counted request, request T+1 of a period and everything before start+checkPeriod+stayPeriod denied, then admitted again; verdicts judged only if all admissible timings agree (call stamps widened by 0.5 ms), else ambiguous. Excluded: allow-obligations where a sliding-period reading would deny (doc silent on fixed vs sliding); LRU eviction (dict sizes 1000 >> keys); UseSocketIP/UseConnectID (documented, not part of this property). Non-trivial = history with >= 1 checked deny and >= 1 checked admit that only a served jail explains; distinct = (kind, T, periods, sign mode, key, offsets)")
+	r.SetRule("history = one key's deterministic script of target offsets (us) against one real prisonRule (threshold 0-8, checkPeriod 40-200 ms, stayPeriod 40-400 ms via the verif hook; 12 accessSignConf modes: header, cookie, query, clientip, host, path, url, urlregexp and combinations, keys of a rule differing in exactly one participating component, a per-request noise header/query that must not matter). Scripts come from a generator that follows the nominal automaton to exceed periods, probe jails (half of the probes in the last 15 ms before release), serve them, let periods run out, and place 1/10 of the steps +-2 ms around edges; otherwise >= 10 ms from edges; at run time the rest of a key's script is slid by the lateness of each request that nominally opens a period (script unchanged). 'keys' cases run 3-6 keys of one rule in parallel goroutines (each key sequential); 'storm' cases fire 2-4 goroutines on ONE key and are judged by counts (exactly min(N,T) admitted when the burst certainly lies within one period; nothing admitted after a denial returned) followed by sequential probes; one 'anchor' case runs checkPeriod=stayPeriod=1 s through module Init + the HandleFoundProduct handler chain. Oracle: state-set interval reference (c53ref.go): period opened by the first counted request, request T+1 of a period and everything before start+checkPeriod+stayPeriod denied, then admitted again; verdicts judged only if all admissible timings agree (call stamps widened by 0.5 ms), else ambiguous. Excluded: allow-obligations where a sliding-period reading would deny (doc silent on fixed vs sliding); LRU eviction (dict sizes 1000 >> keys); UseSocketIP/UseConnectID (documented, not part of this property). Non-trivial = history with >= 1 checked deny and >= 1 checked admit that only a served jail explains; distinct = (kind, T, periods, sign mode, key, offsets)")
 	r.Assume("the wall clock (read by mod_prison via time.Now().UnixNano()) advances with the monotonic clock within 0.25 ms over one case; cases where the harness measures a larger deviation are discarded and counted")
 	r.Assume("hook VerifNewPrisonRule builds the rule with the real PrisonRuleCheck/newPrisonRule/initDict and only overwrites checkPeriodNs/stayPeriodNs; requests enter through the real recordAndCheck")
 
